@@ -17,6 +17,13 @@ func ClassGeneration() uint64 {
 	return classGeneration.Load()
 }
 
+// ClassesChanged is called after the precedence lists of existing classes
+// were rebuilt (a class redefinition reaches its subclasses only after the
+// new class is registered) so that caches filled in between are dropped.
+func ClassesChanged() {
+	classGeneration.Add(1)
+}
+
 // Class represents all class types.
 type Class interface {
 	Object
